@@ -685,7 +685,7 @@ def components(y,**kwargs):
                         # to a summary value
                         u=u_bar([ur_0,0,ui_0,0])
                         
-                        uids.append(ir_0.complex)
+                        uids.append(ir_0.uid)
                         values.append(u)
                         
             except StopIteration:
